@@ -12,6 +12,15 @@
 //     closed, and true once W.Close() has been called; other states are not asserted;
 //   - a reader+writer pair reports closed iff both halves are: false while one half is certainly
 //     open, true when both halves are certainly closed.
+//
+// Carriers: a StreamWrappedConnection holds, besides the stream it owns, the connection it runs over
+// (`underlying`: addresses and deadlines only). That connection may itself be a composition of this
+// package's wrappers with its own handle in the history ("StreamConnection(w;over=u)"). The carrier
+// is not a resource of the stream-wrapped connection: closing it through its own handle is not a
+// close of the stream-wrapped connection or of anything above it (their Closed() stays false, their
+// Close still has to reach the stream exactly once); closing the stream-wrapped connection is not
+// required to close the carrier, but it is not forbidden either (carrier states are not asserted
+// once anything above them has been closed).
 package streams
 
 import (
@@ -133,21 +142,22 @@ type c19Ctor struct {
 	name string
 	out  int
 	in   []int
+	opt  []int // optional further arguments, not owned by the wrapper (the carrier of a StreamConnection)
 }
 
 var c19Ctors = []c19Ctor{
-	{"SafeConnection", c19Conn, []int{c19Conn}},
-	{"NamedConnection", c19Conn, []int{c19Conn}},
-	{"BufferedInputConnection", c19Conn, []int{c19Conn}},
-	{"SimulatedConnection", c19Conn, []int{c19Stream}},
-	{"StreamConnection", c19Conn, []int{c19Stream}},
-	{"SafeStream", c19Stream, []int{c19Stream}},
-	{"NamedStream", c19Stream, []int{c19Stream}},
-	{"ReadWriteCloser", c19Stream, []int{c19Reader, c19Writer}},
-	{"SafeReader", c19Reader, []int{c19Reader}},
-	{"NamedReader", c19Reader, []int{c19Reader}},
-	{"SafeWriter", c19Writer, []int{c19Writer}},
-	{"NamedWriter", c19Writer, []int{c19Writer}},
+	{"SafeConnection", c19Conn, []int{c19Conn}, nil},
+	{"NamedConnection", c19Conn, []int{c19Conn}, nil},
+	{"BufferedInputConnection", c19Conn, []int{c19Conn}, nil},
+	{"SimulatedConnection", c19Conn, []int{c19Stream}, nil},
+	{"StreamConnection", c19Conn, []int{c19Stream}, []int{c19Conn}},
+	{"SafeStream", c19Stream, []int{c19Stream}, nil},
+	{"NamedStream", c19Stream, []int{c19Stream}, nil},
+	{"ReadWriteCloser", c19Stream, []int{c19Reader, c19Writer}, nil},
+	{"SafeReader", c19Reader, []int{c19Reader}, nil},
+	{"NamedReader", c19Reader, []int{c19Reader}, nil},
+	{"SafeWriter", c19Writer, []int{c19Writer}, nil},
+	{"NamedWriter", c19Writer, []int{c19Writer}, nil},
 }
 
 func c19CtorByName(name string) *c19Ctor {
@@ -161,6 +171,8 @@ func c19CtorByName(name string) *c19Ctor {
 
 // c19Spec is the replayable description of a configuration: a constructor with its arguments, or
 // a leaf ("conn", "rwc", "r", "w": the counting fake of that interface kind; Fail = its Close fails).
+// A StreamConnection may have a second argument: the connection it runs over (its `underlying`; a
+// "conn" leaf or a composition of connection wrappers). With one argument it runs over a plain fake.
 type c19Spec struct {
 	C    string     `json:"c"`
 	Fail bool       `json:"fail,omitempty"`
@@ -178,7 +190,33 @@ func (s *c19Spec) String() string {
 	for i, k := range s.Kids {
 		parts[i] = k.String()
 	}
+	if s.hasCarrierArg() {
+		return s.C + "(" + parts[0] + ";over=" + parts[1] + ")"
+	}
 	return s.C + "(" + strings.Join(parts, ",") + ")"
+}
+
+// hasCarrierArg: a StreamConnection whose `underlying` is given explicitly
+func (s *c19Spec) hasCarrierArg() bool {
+	return s.C == "StreamConnection" && len(s.Kids) == 2
+}
+
+// owns: is argument i a resource of the wrapper (everything but the carrier of a StreamConnection)
+func (s *c19Spec) owns(i int) bool {
+	return !(s.C == "StreamConnection" && i == 1)
+}
+
+// hasCarrier: does the configuration contain a StreamConnection that runs over a wrapper
+func (s *c19Spec) hasCarrier() bool {
+	if s.hasCarrierArg() && len(s.Kids[1].Kids) > 0 {
+		return true
+	}
+	for _, k := range s.Kids {
+		if k.hasCarrier() {
+			return true
+		}
+	}
+	return false
 }
 
 func (s *c19Spec) depth() int {
@@ -240,9 +278,12 @@ type c19Node struct {
 	kidNodes []*c19Node // per argument; nil where the argument is a leaf
 	kidLeaf  []*c19res  // per argument; nil where the argument is a wrapper
 	chain    []*c19Node // ancestors, self and descendants
-	anc      []*c19Node // ancestors only
-	sub      []*c19Node // self and descendants
-	below    []*c19res  // all fakes below this wrapper
+	anc      []*c19Node // ancestors only (for a wrapper of a carrier: also the StreamConnection running over it and its ancestors)
+	sub      []*c19Node // self and descendants (owned arguments only: not the carrier of a StreamConnection)
+	below    []*c19res  // all fakes below this wrapper (owned arguments only)
+	inSide   bool       // the wrapper is part of the carrier of some StreamConnection
+	sideAll  []*c19Node // StreamConnection with a wrapper as carrier: all wrappers of that carrier
+	carriers []*c19Node // the StreamConnections among `sub` that run over a wrapper
 	name     string     // name given to Named* wrappers
 	shape    string     // signature shape: constructor > argument constructors (> .. when deeper)
 
@@ -274,6 +315,12 @@ func c19NewTree(spec *c19Spec) (*c19Tree, error) {
 		walk = func(x *c19Node) {
 			n.sub = append(n.sub, x)
 			for i, k := range x.kidNodes {
+				if !x.spec.owns(i) {
+					if k != nil {
+						n.carriers = append(n.carriers, x)
+					}
+					continue
+				}
 				if k != nil {
 					walk(k)
 				} else {
@@ -283,11 +330,26 @@ func c19NewTree(spec *c19Spec) (*c19Tree, error) {
 		}
 		walk(n)
 		n.chain = append(append([]*c19Node{}, n.anc...), n.sub...)
+		if n.spec.hasCarrierArg() && n.kidNodes[1] != nil {
+			var all func(x *c19Node)
+			all = func(x *c19Node) {
+				x.inSide = true
+				n.sideAll = append(n.sideAll, x)
+				for _, k := range x.kidNodes {
+					if k != nil {
+						all(k)
+					}
+				}
+			}
+			all(n.kidNodes[1])
+		}
 		// signature shape: constructor > constructor of its argument. A pair only distinguishes what
 		// its behaviour can depend on: a bare resource, a SafeReader/SafeWriter (which NewReadWriteCloser
 		// keeps as its half) or any other wrapper (which it wraps again)
 		if len(n.spec.Kids) == 1 {
 			n.shape = n.spec.C + ">" + n.spec.Kids[0].C
+		} else if n.spec.hasCarrierArg() {
+			n.shape = n.spec.C + ">" + n.spec.Kids[0].C + "~" + n.spec.Kids[1].C
 		} else {
 			var parts []string
 			for _, k := range n.spec.Kids {
@@ -309,15 +371,21 @@ func (t *c19Tree) add(s *c19Spec, parent *c19Node) (*c19Node, error) {
 	if ct == nil {
 		return nil, fmt.Errorf("unknown constructor %q", s.C)
 	}
-	if len(s.Kids) != len(ct.in) {
+	if len(s.Kids) < len(ct.in) || len(s.Kids) > len(ct.in)+len(ct.opt) {
 		return nil, fmt.Errorf("%s takes %d arguments", s.C, len(ct.in))
+	}
+	argKind := func(i int) int {
+		if i < len(ct.in) {
+			return ct.in[i]
+		}
+		return ct.opt[i-len(ct.in)]
 	}
 	n := &c19Node{idx: len(t.nodes), spec: s, ctor: ct, parent: parent, name: fmt.Sprintf("n%d", len(t.nodes))}
 	t.nodes = append(t.nodes, n)
 	for i, k := range s.Kids {
 		if len(k.Kids) == 0 {
 			kind := c19LeafKind(k.C)
-			if kind < 0 || !c19Fits(kind, ct.in[i]) {
+			if kind < 0 || !c19Fits(kind, argKind(i)) {
 				return nil, fmt.Errorf("leaf %q does not fit argument %d of %s", k.C, i, s.C)
 			}
 			r := &c19res{kind: kind, fail: k.Fail, above: n}
@@ -340,7 +408,7 @@ func (t *c19Tree) add(s *c19Spec, parent *c19Node) (*c19Node, error) {
 		if err != nil {
 			return nil, err
 		}
-		if !c19Fits(kn.ctor.out, ct.in[i]) {
+		if !c19Fits(kn.ctor.out, argKind(i)) {
 			return nil, fmt.Errorf("%s does not fit argument %d of %s", k.C, i, s.C)
 		}
 		n.kidNodes = append(n.kidNodes, kn)
@@ -379,7 +447,11 @@ func (t *c19Tree) instantiate() {
 		case "SimulatedConnection":
 			n.obj = NewSimulatedConnection(args[0].(io.ReadWriteCloser), Localhost, Localhost)
 		case "StreamConnection":
-			n.obj = NewStreamConnection(args[0].(io.ReadWriteCloser), &c19FakeConn{t.side})
+			if len(args) == 2 {
+				n.obj = NewStreamConnection(args[0].(io.ReadWriteCloser), args[1].(net.Conn))
+			} else {
+				n.obj = NewStreamConnection(args[0].(io.ReadWriteCloser), &c19FakeConn{t.side})
+			}
 		case "SafeStream":
 			n.obj = NewSafeStream(args[0].(io.ReadWriteCloser))
 		case "NamedStream":
@@ -544,6 +616,15 @@ const (
 	c19CRandomWrappersReusedByConstructor
 	c19CRandomHistories
 	c19CExhaustiveConfigurationsWithLen4
+	c19CCarrierConfigurations
+	c19CCarrierHistories7callsLen0to3
+	c19CCarrierHistories5callsLen4
+	c19CCarrierHistories7callsLen0to4
+	c19CCarrierRandomConfigurations
+	c19CCarrierRandomHistories
+	c19CCarrierWrappersClosedByHistory
+	c19CFirstCloseOverClosedCarrier
+	c19CClosedAssertedFalseOverClosedCarrier
 	c19NumCounters
 )
 
@@ -569,6 +650,15 @@ var c19CounterNames = []string{
 	"random_wrappers_reused_by_constructor",
 	"random_histories",
 	"exhaustive_configurations_with_len4",
+	"carrier_exhaustive_configurations",
+	"carrier_exhaustive_histories_7calls_len0to3",
+	"carrier_exhaustive_histories_5calls_len4",
+	"carrier_exhaustive_histories_7calls_len0to4",
+	"carrier_random_configurations",
+	"carrier_random_histories",
+	"carrier_wrapper_close_calls_by_history",
+	"first_close_at_or_above_streamconnection_over_closed_carrier",
+	"closed_asserted_false_over_closed_carrier",
 }
 
 func (r *c19Runner) flush() {
@@ -608,6 +698,28 @@ func (t *c19Tree) failing(n *c19Node) bool {
 	return false
 }
 
+// carrierClosed: n is, or stands above, a StreamConnection whose carrier (a wrapper with its own
+// handle) has been closed by the history
+func (t *c19Tree) carrierClosed(n *c19Node) bool {
+	for _, sc := range n.carriers {
+		if c19AnyClosed(sc.sideAll) {
+			return true
+		}
+	}
+	return false
+}
+
+// noteClose keeps the evidence counters of the carrier situations; called before the model counts a
+// Close() call on n
+func (t *c19Tree) noteClose(r *c19Runner, n *c19Node) {
+	if n.inSide {
+		r.c[c19CCarrierWrappersClosedByHistory]++
+	}
+	if n.canon.closeCalls == 0 && len(n.carriers) > 0 && t.carrierClosed(n) {
+		r.c[c19CFirstCloseOverClosedCarrier]++
+	}
+}
+
 // checkLeaves: no fake closed twice; every fake below a closed wrapper closed exactly once.
 // A double close is signed by the wrapper directly above the resource, a missing close by the
 // closed wrapper whose Close did not reach the resource.
@@ -637,6 +749,9 @@ func (t *c19Tree) checkClosed(r *c19Runner, n *c19Node, got bool) *c19Viol {
 	switch want {
 	case c19False:
 		r.c[c19CClosedAssertedFalse]++
+		if len(n.carriers) > 0 && t.carrierClosed(n) {
+			r.c[c19CClosedAssertedFalseOverClosedCarrier]++
+		}
 		if clause == "pair-closed-true-with-open-half" {
 			r.c[c19CPairPartialStateAssertions]++
 		}
@@ -679,6 +794,7 @@ func (t *c19Tree) step(r *c19Runner, s c19Step) *c19Viol {
 		case c19OpClose:
 			prior := n.canon.closeCalls
 			err := n.obj.(io.Closer).Close()
+			t.noteClose(r, n)
 			n.canon.closeCalls++
 			if prior > 0 {
 				r.c[c19CRepeatCloseResultsChecked]++
@@ -705,6 +821,7 @@ func (t *c19Tree) step(r *c19Runner, s c19Step) *c19Viol {
 				err = LogClose(n.obj.(io.Closer))
 			}
 			if !pre {
+				t.noteClose(r, n)
 				n.canon.closeCalls++
 			}
 			if prior > 0 && s.op == c19OpLogClose {
@@ -770,6 +887,10 @@ func (t *c19Tree) run(r *c19Runner, steps []c19Step, key bool) bool {
 	sig := v.node.shape + ":" + v.clause
 	if (v.leaf != nil && v.leaf.fail) || (v.leaf == nil && t.failing(v.node)) {
 		sig += ":underlying-close-fails"
+	}
+	if t.carrierClosed(v.node) {
+		// the signing wrapper is, or stands above, a StreamConnection whose carrier was closed first
+		sig += ":over-closed-carrier"
 	}
 	obs := v.obs
 	obs["signed_by_wrapper"] = fmt.Sprintf("%s#%d", v.node.spec.C, v.node.idx)
@@ -840,7 +961,10 @@ type c19Rand interface {
 	Float64() float64
 }
 
-func c19RandSpec(rng c19Rand, want, depth int, root bool) *c19Spec {
+// c19RandSpec draws a configuration whose value fits `want` (root: any outermost constructor).
+// carrier: a StreamConnection gets, two times out of three, an explicit connection to run over
+// (with carrier == false the draws are exactly those of the plain random family).
+func c19RandSpec(rng c19Rand, want, depth int, root bool, carrier bool) *c19Spec {
 	if !root && (depth == 0 || rng.Intn(6) == 0) {
 		var fit []int
 		for k := range c19LeafNames {
@@ -863,9 +987,77 @@ func c19RandSpec(rng c19Rand, want, depth int, root bool) *c19Spec {
 	ct := fit[rng.Intn(len(fit))]
 	s := &c19Spec{C: ct.name}
 	for _, in := range ct.in {
-		s.Kids = append(s.Kids, c19RandSpec(rng, in, depth-1, false))
+		s.Kids = append(s.Kids, c19RandSpec(rng, in, depth-1, false, carrier))
+	}
+	if carrier && len(ct.opt) > 0 && rng.Intn(3) != 0 {
+		s.Kids = append(s.Kids, c19RandCarrier(rng, depth-1))
 	}
 	return s
+}
+
+// c19RandCarrier draws the connection a StreamConnection runs over: a composition of connection
+// wrappers of depth 1..min(2,depth) (one time out of eight, and at the nesting bound, a bare fake,
+// which has no handle of its own)
+func c19RandCarrier(rng c19Rand, depth int) *c19Spec {
+	if rng.Intn(8) == 0 {
+		return &c19Spec{C: "conn", Fail: rng.Intn(3) == 0}
+	}
+	if depth < 1 {
+		return &c19Spec{C: "conn", Fail: rng.Intn(3) == 0} // nesting bound reached
+	}
+	if depth > 2 {
+		depth = 1 + rng.Intn(2)
+	}
+	var fit []*c19Ctor
+	for i := range c19Ctors {
+		if c19Ctors[i].out == c19Conn {
+			fit = append(fit, &c19Ctors[i])
+		}
+	}
+	ct := fit[rng.Intn(len(fit))]
+	s := &c19Spec{C: ct.name}
+	for _, in := range ct.in {
+		s.Kids = append(s.Kids, c19RandSpec(rng, in, depth-1, false, true))
+	}
+	if len(ct.opt) > 0 && depth > 1 && rng.Intn(2) == 0 {
+		s.Kids = append(s.Kids, c19RandCarrier(rng, depth-1))
+	}
+	return s
+}
+
+// c19CarrierConfigs lists the exhaustive carrier family: StreamConnection(w;over=u) with w a stream
+// fake (Close succeeds / fails) and u every connection wrapper composition of depth 1..udepth over
+// fakes that succeed or fail, bare and (outer) as the argument of every constructor that takes a
+// connection (the pair: as its reader half over a writer fake, and as its writer half over a reader fake).
+func c19CarrierConfigs(udepth int, outer bool) []*c19Spec {
+	var carriers []*c19Spec
+	for i := range c19Ctors {
+		if c19Ctors[i].out == c19Conn {
+			carriers = append(carriers, c19EnumCtor(&c19Ctors[i], udepth)...)
+		}
+	}
+	var res []*c19Spec
+	for _, w := range c19Enum(c19Stream, 0) {
+		for _, u := range carriers {
+			sc := func() *c19Spec { return &c19Spec{C: "StreamConnection", Kids: []*c19Spec{w, u}} }
+			if !outer {
+				res = append(res, sc())
+				continue
+			}
+			for i := range c19Ctors {
+				ct := &c19Ctors[i]
+				if len(ct.in) == 1 {
+					if c19Fits(c19Conn, ct.in[0]) {
+						res = append(res, &c19Spec{C: ct.name, Kids: []*c19Spec{sc()}})
+					}
+					continue
+				}
+				res = append(res, &c19Spec{C: ct.name, Kids: []*c19Spec{sc(), {C: "w"}}})
+				res = append(res, &c19Spec{C: ct.name, Kids: []*c19Spec{{C: "r"}, sc()}})
+			}
+		}
+	}
+	return res
 }
 
 var c19OpWeights = []int{12, 12, 30, 20, 8, 9, 9} // Read Write Close Closed String TryClose LogClose
@@ -1004,7 +1196,7 @@ func TestVerifC19(t *testing.T) {
 			if rng.Intn(8) == 0 {
 				depth = 1 + rng.Intn(2)
 			}
-			spec := c19RandSpec(rng, 0, depth, true)
+			spec := c19RandSpec(rng, 0, depth, true, false)
 			tr, err := c19NewTree(spec)
 			if err != nil {
 				t.Fatalf("%s: %v", spec, err)
@@ -1041,6 +1233,141 @@ func TestVerifC19(t *testing.T) {
 				r.c[c19CRandomHistories]++
 				rec.StatMax("random_history_length", int64(l))
 				if ok && b < 3 && c == 0 && h == 0 {
+					rec.Sample(tr.desc(steps))
+				}
+			}
+		}
+		r.flush()
+	}
+
+	// ---- carriers: StreamConnections that run over a wrapper with its own handle ----------------
+	// exhaustive: quick = carrier depth 1, bare (lengths 0-3 over all seven calls + length 4 over the
+	// five calls of the statement) and below every outer constructor (lengths 0-3); thorough = the same
+	// with length 4 over all seven calls, plus carrier depth 2 bare (lengths 0-3)
+	type carrierFam struct {
+		specs  []*c19Spec
+		len4   int // 0: none, 5: the five calls of the statement, 7: all calls
+		family string
+	}
+	fams := []carrierFam{
+		{c19CarrierConfigs(1, false), rec.Pick(5, 7), "carrier depth 1"},
+		{c19CarrierConfigs(1, true), rec.Pick(0, 7), "carrier depth 1 below an outer wrapper"},
+	}
+	if rec.Thorough() {
+		var deep []*c19Spec
+		for _, sp := range c19CarrierConfigs(2, false) {
+			if sp.Kids[1].depth() == 2 {
+				deep = append(deep, sp)
+			}
+		}
+		fams = append(fams, carrierFam{deep, 0, "carrier depth 2"})
+	}
+	for _, fam := range fams {
+		for ci, spec := range fam.specs {
+			tr, err := c19NewTree(spec)
+			if err != nil {
+				t.Fatalf("%s: %v", spec, err)
+			}
+			full := tr.alphabet(c19NumOps)
+			if mine() {
+				rec.Mark(map[string]string{"config": spec.String(), "family": fam.family + " len<=3"})
+				n := tr.exhaust(r, full, 0, 3, 2, -1)
+				if fam.len4 == 7 {
+					r.c[c19CCarrierHistories7callsLen0to4] += n
+				} else {
+					r.c[c19CCarrierHistories7callsLen0to3] += n
+				}
+				r.c[c19CCarrierConfigurations]++
+				rec.Seen("carrier_outermost_shape", tr.nodes[0].shape)
+				for _, x := range tr.nodes {
+					if len(x.sideAll) > 0 {
+						rec.Seen("streamconnection_over_carrier", x.shape)
+					}
+				}
+				if ci%41 == 1 {
+					rec.Sample(tr.desc([]c19Step{full[len(full)-1], full[2%len(full)]}))
+				}
+			}
+			if fam.len4 == 0 {
+				continue
+			}
+			alpha := full
+			if fam.len4 == 5 {
+				alpha = tr.alphabet(c19OpString + 1)
+			}
+			for f := range alpha {
+				if mine() {
+					rec.Mark(map[string]interface{}{"config": spec.String(), "family": fam.family + " len=4", "first": f})
+					n := tr.exhaust(r, alpha, 4, 4, 0, f)
+					if fam.len4 == 7 {
+						r.c[c19CCarrierHistories7callsLen0to4] += n
+					} else {
+						r.c[c19CCarrierHistories5callsLen4] += n
+					}
+				}
+			}
+		}
+		r.flush()
+	}
+
+	// random: configurations of depth <= 4 in which at least one StreamConnection runs over a wrapper
+	cbatches := rec.Pick(96, 800)
+	for b := 0; b < cbatches; b++ {
+		if !mine() {
+			continue
+		}
+		rng := vcommon.NewRand(rec.Seed(), fmt.Sprintf("c19/random-carrier/%d", b))
+		rec.Mark(map[string]interface{}{"family": "random carrier", "batch": b})
+		for c := 0; c < configsPerBatch; c++ {
+			var spec *c19Spec
+			for try := 0; try < 40 && (spec == nil || !spec.hasCarrier()); try++ {
+				spec = c19RandSpec(rng, 0, 3+rng.Intn(2), true, true)
+			}
+			if !spec.hasCarrier() {
+				// directed: a StreamConnection over a drawn carrier, bare or below one outer wrapper
+				w := c19RandSpec(rng, c19Stream, 2, false, true)
+				var u *c19Spec
+				for u == nil || len(u.Kids) == 0 {
+					u = c19RandCarrier(rng, 2)
+				}
+				spec = &c19Spec{C: "StreamConnection", Kids: []*c19Spec{w, u}}
+				if rng.Intn(2) == 0 {
+					spec = &c19Spec{C: []string{"SafeConnection", "NamedConnection", "SafeStream", "NamedStream", "SimulatedConnection"}[rng.Intn(5)], Kids: []*c19Spec{spec}}
+				}
+			}
+			tr, err := c19NewTree(spec)
+			if err != nil {
+				t.Fatalf("%s: %v", spec, err)
+			}
+			tr.instantiate()
+			rec.StatMax("carrier_random_depth", int64(spec.depth()))
+			rec.StatMax("carrier_random_wrappers_in_configuration", int64(len(tr.nodes)))
+			r.c[c19CCarrierRandomConfigurations]++
+			for _, n := range tr.nodes {
+				if len(n.sideAll) > 0 {
+					rec.Seen("streamconnection_over_carrier", n.shape)
+					if n.parent != nil {
+						rec.Seen("constructor_over_streamconnection_with_carrier", n.parent.spec.C)
+					}
+				}
+			}
+			for h := 0; h < perConfig; h++ {
+				l := 1 + rng.Intn(12)
+				if rng.Intn(3) == 0 {
+					l = 5 + rng.Intn(8)
+				}
+				steps := make([]c19Step, 0, l)
+				for len(steps) < l {
+					n := tr.nodes[rng.Intn(len(tr.nodes))]
+					op := c19RandOp(rng)
+					if !tr.has(n, op) {
+						continue
+					}
+					steps = append(steps, c19Step{n, op})
+				}
+				ok := tr.run(r, steps, h < keyed)
+				r.c[c19CCarrierRandomHistories]++
+				if ok && b < 2 && c == 0 && h == 0 {
 					rec.Sample(tr.desc(steps))
 				}
 			}
